@@ -203,7 +203,7 @@ func checkC05(e *RunEnv) *CheckResult {
 	P := []string{"d/x", "d x", "d-x", "d/s t/u", "d_y", "dd/z"}
 	spec := &Spec{
 		Seeds: []Seed{{"S0", seedS0()}},
-		Depth: e.depth(4, 6),
+		Depth: e.depth(4, 7),
 		Steps: func(n *Node) []Step {
 			a := n.Abs()
 			var steps []Step
